@@ -13,8 +13,8 @@ from .. import scenes, obs, oracles, pipeline
 
 ID, NUM, LEVEL = 'C13', 13, 'exploration'
 RULE = ('Evaluation = one interleaving / one thread schedule of 2-4 chunks, each with its own data and per-call '
-        'parameters while the global parameters hold other values (valid-but-different, or poison when the per-call '
-        'dict names every leaf); every chunk must end with exactly the canonical observation (tables, per-hit data, '
+        'parameters while the global parameters hold other values (valid-but-different, or, when the per-call '
+        'dict names every leaf, poison alternating with other valid values between any two stage calls); every chunk must end with exactly the canonical observation (tables, per-hit data, '
         'messages, bit-wise) of the same chunk processed alone. (a) Single-threaded stage interleavings: ALL 252 '
         'interleavings of [construct, find_slices, find_groups, find_layers, messages] of two chunks (pairs with '
         'different data, and pairs with the SAME data but different parameters), and interleavings of three chunks '
@@ -28,7 +28,7 @@ RULE = ('Evaluation = one interleaving / one thread schedule of 2-4 chunks, each
         'interleaving index resp. schedule hash.')
 ASSUMPTIONS = ['no pre-emption inside C extensions (numpy / scikit-learn calls are atomic steps of a schedule)',
                'isolated references are computed in the same process before the interleavings (cross-process equality is C09)']
-REQUIRED = ['pair_interleavings_252', 'pair_same_data_different_prms', 'pair_shared_list_objects', 'triple_interleavings', 'threads_pct', 'threads_random_walk', 'threads_call_level', 'threads_call_level',
+REQUIRED = ['pair_interleavings_252', 'pair_same_data_different_prms', 'pair_shared_list_objects', 'global_changed_between_stages', 'triple_interleavings', 'threads_pct', 'threads_random_walk', 'threads_call_level', 'threads_call_level',
             'two_threads_in_same_stage', 'two_threads_in_ncomp_from_gmm', 'poisoned_global', 'distinct_schedules_100']
 SIZES = {'quick': dict(pairs=4, triples=100, sched=320), 'thorough': dict(pairs=40, triples=1680 * 5, sched=6000)}
 EXHAUSTIVE = {'quick': 'all C(10,5)=252 stage interleavings of two chunks, for each of the pairs (interleaving part only)',
@@ -211,6 +211,20 @@ def check_interleavings(desc):
                 seqs = [coarse] * 3
                 allo = sorted(set(itertools.permutations([0, 0, 0, 1, 1, 1, 2, 2, 2])))
                 orders = [list(o) for o in allo[desc['lo']:desc['lo'] + desc['n']]]
+            def flip_global(step):
+                # per-call dicts name every leaf here: the live global may hold anything at any time
+                from ampycloud import dynamic
+                from .c12 import poison
+                ampycloud.reset_prms()
+                if step % 2:
+                    dynamic.AMPYCLOUD_PRMS['MIN_SEP_VALS'] = [777.0, 1234.0]
+                    dynamic.AMPYCLOUD_PRMS['LOWESS']['frac'] = 0.9
+                    dynamic.AMPYCLOUD_PRMS['MAX_HITS_OKTA0'] = 9
+                    dynamic.AMPYCLOUD_PRMS['BASE_LVL_HEIGHT_PERC'] = 77
+                    dynamic.AMPYCLOUD_PRMS['LAYERING_PRMS']['gmm_kwargs']['delta_mul_gain'] = 0.1
+                    dynamic.AMPYCLOUD_PRMS['MSA'] = 1234.5
+                else:
+                    poison(dynamic.AMPYCLOUD_PRMS)
             for order in orders:
                 pipes = [Pipe(c) for c in cases]
                 if shared:
@@ -218,13 +232,18 @@ def check_interleavings(desc):
                     for p_ in pipes:
                         p_.shared_lists = common
                 try:
-                    for who in order:
+                    for step_no, who in enumerate(order):
+                        if gtag == 'poisoned_global':
+                            flip_global(step_no)
+                            tags.add('global_changed_between_stages')
                         p = pipes[who]
                         st = seqs[who][p.pos]
                         for s in ([st] if isinstance(st, str) else st):
                             p.step(s)
                         p.pos += 1
                     got = [p.digest() for p in pipes]
+                    if gtag == 'poisoned_global':
+                        flip_global(0)
                 except Exception as e:      # noqa
                     oracles.V(viol, 'C13', 'interleaved processing raises', exc=type(e).__name__, msg=str(e)[:160],
                               order=order, global_mode=gtag)
